@@ -3117,9 +3117,14 @@ coap_handle_request_put_block(coap_context_t *context,
        * complete payload to application and acknowledge this current
        * block.
        */
-      if (!check_all_blocks_in(&lg_srcv->rec_blocks,
+      if (!lg_srcv->no_more_seen ||
+          !check_all_blocks_in(&lg_srcv->rec_blocks,
                                (lg_srcv->total_len + chunk -1) / chunk)) {
-        /* Ask for the next block */
+        /*
+         * Ask for the next block.  Until the block without the More bit has
+         * been seen, total_len is only what has arrived so far (or what the
+         * peer's Size1 estimated) and the body cannot be known to be complete.
+         */
         coap_insert_option(response, block_option,
                            coap_encode_var_safe(buf, sizeof(buf),
                                                 (saved_num << 4) |
